@@ -4,7 +4,7 @@
 # Expects /tmp/mut/<name>.out/{patch.diff, <pkg>/zz_demo_test.go}
 N=$1; P=$2; T=${3:-quick}
 OUT=/tmp/mut/$N.out
-W=/tmp/chk/$N
+W=/tmp/chk/$N${FAST:+.fast}
 rm -rf $W; mkdir -p /tmp/chk
 git -C /repo worktree prune
 git -C /repo worktree add -q --detach $W HEAD || exit 2
@@ -14,11 +14,11 @@ export GOFLAGS=-mod=mod GOPROXY=off
 if ! go build ./... 2>&1 | tail -3; then echo BUILD-FAIL; fi
 PKGS=$(git diff --name-only | xargs -n1 dirname | sort -u | sed 's|^|./|' | tr '\n' ' ')
 echo "changed: $(git diff --stat | tail -1)"
-SUITE=$(go test -count=1 -vet=off -timeout 25m ./... 2>&1 | grep -v "no test files" | grep -v "^ok" | head -5)
-if [ -n "$SUITE" ]; then echo "SUITE-FAILS: $SUITE"; else echo "suite: pass"; fi
+[ -n "$FAST" ] || SUITE=$(go test -count=1 -vet=off -timeout 25m ./... 2>&1 | grep -v "no test files" | grep -v "^ok" | head -5)
+if [ -n "$FAST" ]; then echo "suite: skipped"; elif [ -n "$SUITE" ]; then echo "SUITE-FAILS: $SUITE"; else echo "suite: pass"; fi
 # demo
 DEMO=$(cd $OUT && find . -name 'zz_demo_test.go' | head -1)
-if [ -n "$DEMO" ]; then
+if [ -n "$DEMO" ] && [ -z "$FAST" ]; then
   cp $OUT/$DEMO $W/$DEMO
   D=$(dirname $DEMO)
   if go test -count=1 -vet=off -run 'Demo|demo' $D >/tmp/chk/$N.demo1 2>&1; then echo "demo with change: PASS (unexpected)"; else echo "demo with change: fails (expected)"; fi
